@@ -298,7 +298,7 @@ func Exec(s *Scn, o RunOpts) *Run {
 		jpOn = on
 		// hosts reuse an EVM for the next message through Reset: with unchanged arguments it must change nothing
 		env.EVM.Reset(env.EVM.TxContext, env.EVM.StateDB)
-		env.EVM.SetBlockContext(env.EVM.Context) // likewise for the block context of an EVM reused across blocks
+		env.EVM.SetBlockContext(env.BlockCtx) // likewise for the block context the host built (an EVM reused across blocks)
 		inv := RInv{JPOn: on, EventStart: len(rec.All), FiringStart: len(r.Firings), AnswerStart: len(r.Answers), TransferStart: len(r.Transfers)}
 		ret, _, gas, err, p := env.Call(cs)
 		inv.Ret, inv.Gas, inv.Err, inv.Panic = ret, gas, err, p
